@@ -86,6 +86,114 @@ func validHdr(h Header) bool {
 	return h.Rsv < 8 && h.OpCode < 16 && h.Length >= 0
 }
 
+// specLenForm is the number of extended-length bytes of the minimal encoding: 0, 2 or 8.
+func specLenForm(length int64) int {
+	if length <= 125 {
+		return 0
+	}
+	if length <= 65535 {
+		return 2
+	}
+	return 8
+}
+
+// specHdrByte is byte i of the RFC 6455 §5.2 layout of h with the minimal length form.
+func specHdrByte(h Header, i int) byte {
+	ext := specLenForm(h.Length)
+	switch {
+	case i == 0:
+		var b byte
+		if h.Fin {
+			b = 0x80
+		}
+		return b | h.Rsv<<4 | byte(h.OpCode)
+	case i == 1:
+		var b byte
+		if h.Masked {
+			b = 0x80
+		}
+		if ext == 0 {
+			return b | byte(h.Length)
+		}
+		if ext == 2 {
+			return b | 126
+		}
+		return b | 127
+	case i < 2+ext:
+		// big-endian: byte j of ext bytes
+		j := i - 2
+		return byte(uint64(h.Length) >> (8 * uint(ext-1-j)))
+	default:
+		return h.Mask[i-2-ext]
+	}
+}
+
+// Decoder side (written independently of the encoder side).
+
+// VSpecNeed is the total header size announced by the second header byte.
+func VSpecNeed(b1 byte) int {
+	n := 2
+	if b1&0x80 != 0 {
+		n += 4
+	}
+	if b1&0x7f == 126 {
+		n += 2
+	}
+	if b1&0x7f == 127 {
+		n += 8
+	}
+	return n
+}
+
+// VSpecMSB: the 64-bit length form with its most significant bit set.
+func VSpecMSB(r io.Reader, p0 int) bool {
+	return inByte(r, p0+1)&0x7f == 127 && inByte(r, p0+2)&0x80 != 0
+}
+
+func specBE(r io.Reader, p int, n int) int64 {
+	var v uint64
+	if n == 2 {
+		v = uint64(inByte(r, p))<<8 | uint64(inByte(r, p+1))
+	} else if n == 8 {
+		v = uint64(inByte(r, p))<<56 | uint64(inByte(r, p+1))<<48 | uint64(inByte(r, p+2))<<40 | uint64(inByte(r, p+3))<<32 |
+			uint64(inByte(r, p+4))<<24 | uint64(inByte(r, p+5))<<16 | uint64(inByte(r, p+6))<<8 | uint64(inByte(r, p+7))
+	}
+	return int64(v)
+}
+
+// VSpecDecode reads the header that starts at stream position p0 of r, per RFC 6455 §5.2.
+func VSpecDecode(r io.Reader, p0 int) Header {
+	var h Header
+	b0, b1 := inByte(r, p0), inByte(r, p0+1)
+	h.Fin = b0>>7 == 1
+	h.Rsv = (b0 >> 4) & 7
+	h.OpCode = OpCode(b0 & 15)
+	h.Masked = b1>>7 == 1
+	l7 := b1 & 127
+	ext := 0
+	if l7 == 126 {
+		ext = 2
+	} else if l7 == 127 {
+		ext = 8
+	}
+	if ext == 0 {
+		h.Length = int64(l7)
+	} else {
+		h.Length = specBE(r, p0+2, ext)
+	}
+	if h.Masked {
+		h.Mask = [4]byte{inByte(r, p0+2+ext), inByte(r, p0+3+ext), inByte(r, p0+4+ext), inByte(r, p0+5+ext)}
+	}
+	return h
+}
+
+// VStreamOK: the ghost stream of an abstract reader is well formed.
+func VStreamOK(r io.Reader) bool {
+	return 0 <= inPos(r) && inPos(r) <= inEnd(r) && inEnd(r) <= 1<<48
+}
+
+func outOK(w io.Writer) bool { return 0 <= outLen(w) && outLen(w) <= 1<<48 }
+
 // ---------------------------------------------------------------------------
 // Rules owned by CheckHeader (RFC 6455 §5.2, §5.4, §5.5), one predicate each.
 
@@ -137,3 +245,122 @@ func specHeaderOK(h Header, s State) bool {
 //@   ensures  [name-cunx] result == ErrProtocolContinuationUnexpected ==> ruleContUnexpected(h, s)
 //@   ensures  [named] result == nil || result == ErrProtocolOpCodeReserved || result == ErrProtocolControlPayloadOverflow || result == ErrProtocolControlNotFinal || result == ErrProtocolNonZeroRsv || result == ErrProtocolMaskRequired || result == ErrProtocolMaskUnexpected || result == ErrProtocolContinuationExpected || result == ErrProtocolContinuationUnexpected
 //@   assigns nothing
+
+// ---------------------------------------------------------------------------
+// Close payloads (RFC 6455 §7.4).
+
+// codeAccept: the codes the property says must be accepted (given a valid reason).
+func codeAccept(c StatusCode) bool {
+	return (c >= 1000 && c <= 1003) || (c >= 1007 && c <= 1011) || (c >= 3000 && c <= 4999)
+}
+
+// codeOpen: the codes whose treatment the property leaves open.
+func codeOpen(c StatusCode) bool {
+	return (c >= 1012 && c <= 1014) || c >= 5000
+}
+
+func specBE16(b0, b1 byte) uint16 { return uint16(b0)<<8 | uint16(b1) }
+
+func lemmaCloseRoundTrip(code StatusCode, reason string) bool {
+	b := NewCloseFrameBody(code, reason)
+	c, r := ParseCloseFrameData(b)
+	return c == code && len(b) <= 125 && len(r) == min(len(reason), 123) &&
+		forall(0, len(r), func(k int) bool { return r[k] == reason[k] })
+}
+
+//@ func CheckCloseFrameData
+//@   props C03 C08
+//@   ensures [accept] codeAccept(code) ==> ((result == nil) == validUTF8(reason))
+//@   ensures [refuse] !codeAccept(code) && !codeOpen(code) ==> result != nil
+//@   ensures [utf8]   result == nil ==> validUTF8(reason)
+//@   assigns nothing
+
+//@ func PutCloseFrameBody
+//@   props C03
+//@   requires [room] len(p) >= 2+len(reason)
+//@   requires [noalias] !strViewOf(reason, p)
+//@   ensures  [code] specBE16(p[0], p[1]) == uint16(code)
+//@   ensures  [reason] forall(0, len(reason), func(k int) bool { return p[2+k] == reason[k] })
+//@   assigns bytes(p)
+
+//@ func NewCloseFrameBody
+//@   props C03 C08
+//@   ensures [len]  len(result) == min(2+len(reason), 125)
+//@   ensures [code] specBE16(result[0], result[1]) == uint16(code)
+//@   ensures [reason] forall(0, len(result)-2, func(k int) bool { return result[2+k] == reason[k] })
+//@   ensures [fresh] fresh(result)
+//@   assigns nothing
+
+//@ func ParseCloseFrameData
+//@   props C03 C17
+//@   ensures [short] len(payload) < 2 ==> code == 0 && len(reason) == 0
+//@   ensures [code]  len(payload) >= 2 ==> uint16(code) == specBE16(payload[0], payload[1])
+//@   ensures [len]   len(payload) >= 2 ==> len(reason) == len(payload)-2
+//@   ensures [reason] len(payload) >= 2 ==> forall(0, len(payload)-2, func(k int) bool { return reason[k] == payload[2+k] })
+//@   ensures [fresh] freshStr(reason)
+//@   assigns nothing
+
+//@ func ParseCloseFrameDataUnsafe
+//@   props C03
+//@   ensures [short] len(payload) < 2 ==> code == 0 && len(reason) == 0
+//@   ensures [code]  len(payload) >= 2 ==> uint16(code) == specBE16(payload[0], payload[1])
+//@   ensures [len]   len(payload) >= 2 ==> len(reason) == len(payload)-2
+//@   ensures [reason] len(payload) >= 2 ==> forall(0, len(payload)-2, func(k int) bool { return reason[k] == payload[2+k] })
+//@   assigns nothing
+
+//@ func lemmaCloseRoundTrip
+//@   props C03
+//@   ensures [roundtrip] result
+
+// ---------------------------------------------------------------------------
+// Abstract I/O (assumed contracts; see DESIGN.md §2.7).
+
+//@ iface io.Reader.Read(p []byte) (n int, err error)
+//@   requires [stream] VStreamOK(self)
+//@   ensures  [n]    0 <= n && n <= len(p) && n <= inEnd(self)-old(inPos(self))
+//@   ensures  [pos]  inPos(self) == old(inPos(self))+n
+//@   ensures  [data] forall(0, n, func(k int) bool { return p[k] == inByte(self, old(inPos(self))+k) })
+//@   ensures  [err]  err != nil ==> inPos(self) == inEnd(self) && err == inErr(self)
+//@   assigns bytes(p), stream(self)
+
+//@ iface io.Writer.Write(p []byte) (n int, err error)
+//@   ensures  [calls] outCalls(self) == old(outCalls(self))+1
+//@   ensures  [n]     0 <= n && n <= len(p) && (err == nil ==> n == len(p))
+//@   ensures  [len]   outLen(self) == old(outLen(self))+n
+//@   ensures  [data]  forall(0, n, func(k int) bool { return outByte(self, old(outLen(self))+k) == p[k] })
+//@   ensures  [keep]  forall(0, old(outLen(self)), func(k int) bool { return outByte(self, k) == old(outByte(self, k)) })
+//@   assigns stream(self)
+
+//@ func io.ReadFull
+//@   requires [stream] VStreamOK(r)
+//@   ensures  [ok]    inEnd(r)-old(inPos(r)) >= len(buf) ==> err == nil && n == len(buf) && inPos(r) == old(inPos(r))+len(buf)
+//@   ensures  [data]  forall(0, n, func(k int) bool { return buf[k] == inByte(r, old(inPos(r))+k) })
+//@   ensures  [short] inEnd(r)-old(inPos(r)) < len(buf) ==> err != nil && inPos(r) == inEnd(r) && n == inEnd(r)-old(inPos(r))
+//@   ensures  [eof]   err == io.EOF ==> n == 0
+//@   ensures  [n]     0 <= n && n <= len(buf)
+//@   ensures  [pos]   inPos(r) == old(inPos(r))+n
+//@   assigns bytes(buf), stream(r)
+
+// ---------------------------------------------------------------------------
+// Header codec (C01).
+
+//@ func WriteHeader
+//@   props C01 C06 C08
+//@   requires [valid] validHdr(h)
+//@   requires [out]   outOK(w)
+//@   ensures  [one]   outCalls(w) == old(outCalls(w))+1
+//@   ensures  [len]   result == nil ==> outLen(w) == old(outLen(w))+specHdrLen(h.Length, h.Masked)
+//@   ensures  [bytes] result == nil ==> forall(0, specHdrLen(h.Length, h.Masked), func(k int) bool { return outByte(w, old(outLen(w))+k) == specHdrByte(h, k) })
+//@   ensures  [keep]  forall(0, old(outLen(w)), func(k int) bool { return outByte(w, k) == old(outByte(w, k)) })
+//@   assigns stream(w)
+
+//@ func ReadHeader
+//@   props C01 C15 C16
+//@   requires [stream] VStreamOK(r)
+//@   ensures  [cut2]   inEnd(r)-old(inPos(r)) < 2 ==> err != nil
+//@   ensures  [cut]    inEnd(r)-old(inPos(r)) >= 2 && inEnd(r)-old(inPos(r)) < VSpecNeed(inByte(r, old(inPos(r))+1)) ==> err != nil
+//@   ensures  [msb]    inEnd(r)-old(inPos(r)) >= VSpecNeed(inByte(r, old(inPos(r))+1)) && VSpecMSB(r, old(inPos(r))) ==> err == ErrHeaderLengthMSB
+//@   ensures  [ok]     inEnd(r)-old(inPos(r)) >= VSpecNeed(inByte(r, old(inPos(r))+1)) && !VSpecMSB(r, old(inPos(r))) ==> err == nil && h == VSpecDecode(r, old(inPos(r))) && inPos(r) == old(inPos(r))+VSpecNeed(inByte(r, old(inPos(r))+1))
+//@   ensures  [nomore] inPos(r) <= old(inPos(r))+VSpecNeed(inByte(r, old(inPos(r))+1)) && inPos(r) >= old(inPos(r))
+//@   ensures  [stream] VStreamOK(r)
+//@   assigns stream(r)
